@@ -189,6 +189,64 @@ func init() {
 		return Value{Tuple: []Value{{T: v}, {T: er}}}
 	}
 	externEffects["strconv.Atoi"] = effNone
+	// strings.Split(s, sep) with a non-empty separator: a fresh slice of at least one string; the first part is a prefix
+	// of s; when there are at least two parts the separator follows the first part in s; with exactly two parts the
+	// second one is the rest of s after that separator. (Nothing is said about the parts in between.)
+	externModels["strings.Split"] = func(f *Frame, instr ssa.Instruction, c *ssa.CallCommon, args []Value, rt types.Type) Value {
+		e := f.e
+		sv, sep := args[0].T, args[1].T
+		slen, seplen := app(SBV64, "strlen", sv), app(SBV64, "strlen", sep)
+		reg := e.alloc(f.st, f.name("split_reg"))
+		n := e.havoc(f.name("split_n"), SBV64)
+		r := mkSlice(reg, i64(0), n, n)
+		e.assume(and(sle(i64(1), n), sle(n, i64(1<<40))))
+		hn, hs := e.elemHeapName(SStr)
+		arr := e.havoc(f.name("split_arr"), arraySort(SBV64, SStr))
+		e.setHeap(f.st, hn, store(e.heap(f.st, hn, hs), reg, arr))
+		nonEmptySep := slt(i64(0), seplen)
+		p0 := sel(arr, i64(0))
+		p0len := app(SBV64, "strlen", p0)
+		e.assume(implies(nonEmptySep, and(sle(i64(0), p0len), sle(p0len, slen))))
+		q := e.qvar()
+		e.assume(Term{S: fmt.Sprintf("(forall ((%s (_ BitVec 64))) (! (=> (and %s (bvsle #x0000000000000000 %s) (bvslt %s %s)) (= (strat %s %s) (strat %s %s))) :pattern ((strat %s %s))))",
+			q, nonEmptySep.S, q, q, p0len.S, p0.S, q, sv.S, q, p0.S, q), Sort: SBool})
+		two := and(nonEmptySep, sle(i64(2), n))
+		e.assume(implies(two, sle(bvAdd(p0len, seplen), slen)))
+		q2 := e.qvar()
+		e.assume(Term{S: fmt.Sprintf("(forall ((%s (_ BitVec 64))) (! (=> (and %s (bvsle #x0000000000000000 %s) (bvslt %s %s)) (= (strat %s (bvadd %s %s)) (strat %s %s))) :pattern ((strat %s %s))))",
+			q2, two.S, q2, q2, seplen.S, sv.S, p0len.S, q2, sep.S, q2, sep.S, q2), Sort: SBool})
+		exactly2 := and(nonEmptySep, eq(n, i64(2)))
+		p1 := sel(arr, i64(1))
+		p1len := app(SBV64, "strlen", p1)
+		e.assume(implies(exactly2, eq(bvAdd(bvAdd(p0len, seplen), p1len), slen)))
+		q3 := e.qvar()
+		e.assume(Term{S: fmt.Sprintf("(forall ((%s (_ BitVec 64))) (! (=> (and %s (bvsle #x0000000000000000 %s) (bvslt %s %s)) (= (strat %s %s) (strat %s (bvadd (bvadd %s %s) %s)))) :pattern ((strat %s %s))))",
+			q3, exactly2.S, q3, q3, p1len.S, p1.S, q3, sv.S, p0len.S, seplen.S, q3, p1.S, q3), Sort: SBool})
+		// every part is a string of sane length
+		q4 := e.qvar()
+		e.assume(Term{S: fmt.Sprintf("(forall ((%s (_ BitVec 64))) (! (and (bvsle #x0000000000000000 (strlen (select %s %s))) (bvsle (strlen (select %s %s)) %s)) :pattern ((select %s %s))))",
+			q4, arr.S, q4, arr.S, q4, slen.S, arr.S, q4), Sort: SBool})
+		return Value{T: r}
+	}
+	externEffects["strings.Split"] = func(f *Frame, c *ssa.CallCommon, eff *effects) {
+		hn, hs := f.e.elemHeapName(SStr)
+		eff.names[hn] = hs
+		eff.alloc = true
+	}
+	// strings.HasSuffix / HasPrefix: a deterministic predicate of both strings; when true the first string is at
+	// least as long as the second and has length >= 0 (all that the guarded s[:len(s)-len(suffix)] idiom needs).
+	for _, nm := range []string{"HasSuffix", "HasPrefix"} {
+		nm := nm
+		externModels["strings."+nm] = func(f *Frame, instr ssa.Instruction, c *ssa.CallCommon, args []Value, rt types.Type) Value {
+			e := f.e
+			strT := types.Typ[types.String]
+			// same uninterpreted function as the generic deterministic-library model (gouf_bool("strings.HasPrefix", …) in specs)
+			b := e.defineBool(f.name("hs"), f.ufResult("strings."+nm, 0, args, []types.Type{strT, strT}, types.Typ[types.Bool]))
+			e.assume(implies(b, sle(app(SBV64, "strlen", args[1].T), app(SBV64, "strlen", args[0].T))))
+			return Value{T: b}
+		}
+		externEffects["strings."+nm] = effNone
+	}
 }
 
 // readInt builds the integer read from row[off .. off+n) in the given byte order.
